@@ -949,6 +949,14 @@ func (fx *FuncExec) evalSpecCall(env *SpecEnv, x *ast.CallExpr) Val {
 		if a.Sort == SBV {
 			return bv(not(eq(fmt.Sprintf("(bvand %s %s)", a.S, m.S), "(_ bv0 64)")))
 		}
+		if x, e1 := strconv.ParseInt(a.S, 10, 64); e1 == nil && x >= 0 {
+			if y, e2 := strconv.ParseInt(m.S, 10, 64); e2 == nil && y >= 0 {
+				if x&y != 0 {
+					return bv("true")
+				}
+				return bv("false")
+			}
+		}
 		fx.em.DeclareBase("int.and", "(declare-fun int.and (Int Int) Int)")
 		return bv(not(eq(fmt.Sprintf("(int.and %s %s)", a.S, m.S), "0")))
 	}
